@@ -316,6 +316,9 @@ RowClauses4(S, A, R, n, ph, r, sup, sel, kids, tol, ta, T) ==
      Cl("C03.Residual.Iin",  TRUE, IinLaw(S, n, ph, sel, r.vin, r.iout, r.iin, tol)),
      Cl("C03.PassiveNoGain", Passive(S, n), PassiveOK(S, n, r.vin, r.vout, tol)),
      Cl("C03.SourceNoGain",  src /\ OutLive(S, n, ph), SourceOK(S, n, r.vout, tol)),
+     \* ---- C10 : a component with a tabulated parameter follows its law with an admissible table value
+     Cl("C10.Value.Vout", HasTable(S, n), VoutLaw(S, n, ph, sel, r.vin, r.iout, r.vout, tol)),
+     Cl("C10.Value.Iin",  HasTable(S, n), IinLaw(S, n, ph, sel, r.vin, r.iout, r.iin, tol)),
      \* ---- C11 : consequences of the constructors' acceptance rule, on any solved system
      Cl("C11.LossNonNeg", TRUE, DLeq(DNeg(TolS(r.pwr, tol)), r.loss)),
      Cl("C11.EffLe100", DLt(DZero, r.pwr), DLeq(r.eff, Hund \oplus (Hund \otimes (KS \otimes (tol \oplus Atol))))),
@@ -461,7 +464,7 @@ AllClauseNames ==
    "C07.Total.Loss", "C07.Total.Eff", "C07.Total.Iout", "C07.Energy.Total", "C07.Subsystem.VIP",
    "C07.Subsystem.Loss", "C07.Energy.Subsystem", "C07.Average.Row", "C07.Average.Power",
    "C07.Average.Loss", "C07.Average.Eff", "C07.Average.Iout", "C07.Energy.Average", "C07.Energy.Sum",
-   "C11.LossNonNeg", "C11.EffLe100", "C11.PassiveNoGain",
+   "C10.Value.Vout", "C10.Value.Iin", "C11.LossNonNeg", "C11.EffLe100", "C11.PassiveNoGain",
    "driver.DesignedOK", "C03.FindsModest", "C03.Residual.Vout", "C03.Residual.Iin",
    "C06.PhaseValue", "C06.SleepValue", "C06.ActiveList", "C06.NoConfig", "C06.SinglePhaseEqualsSlice",
    "C06.UnknownPhase", "C08.NoException", "C08.NoRails", "C08.None", "C08.RailSet", "C08.Voltage", "C08.Sums", "C08.Warnings"}
